@@ -487,6 +487,63 @@ impl Gen for SomeI32 {
     }
 }
 
+impl Gen for emit::Level {
+    fn gen(p: &mut Pool) -> Self {
+        p.pick(&[emit::Level::Debug, emit::Level::Info, emit::Level::Warn, emit::Level::Error])
+    }
+    fn extremes(_: &mut Pool) -> Vec<Self> {
+        vec![emit::Level::Debug, emit::Level::Info, emit::Level::Warn, emit::Level::Error]
+    }
+}
+impl Gen for emit::TraceId {
+    fn gen(p: &mut Pool) -> Self {
+        emit::TraceId::from_u128(((p.rng.next() as u128) << 64) | p.rng.next() as u128 | 1).unwrap()
+    }
+    fn extremes(p: &mut Pool) -> Vec<Self> {
+        vec![emit::TraceId::from_u128(1).unwrap(), emit::TraceId::from_u128(u128::MAX).unwrap(), emit::TraceId::from_u128(0xABCDEF << 100).unwrap(), Self::gen(p)]
+    }
+}
+impl Gen for emit::SpanId {
+    fn gen(p: &mut Pool) -> Self {
+        emit::SpanId::from_u64(p.rng.next() | 1).unwrap()
+    }
+    fn extremes(p: &mut Pool) -> Vec<Self> {
+        vec![emit::SpanId::from_u64(1).unwrap(), emit::SpanId::from_u64(u64::MAX).unwrap(), emit::SpanId::from_u64(0xABCD << 48).unwrap(), Self::gen(p)]
+    }
+}
+impl Gen for Cow<'static, str> {
+    fn gen(p: &mut Pool) -> Self {
+        if p.rng.below(2) == 0 { Cow::Owned(String::gen(p)) } else { Cow::Borrowed(p.pick(LOOKALIKES)) }
+    }
+}
+/// the textual forms the well-known keys accept
+#[derive(Clone, Debug)]
+struct LevelText(String);
+impl Gen for LevelText {
+    fn gen(p: &mut Pool) -> Self {
+        LevelText(p.pick(&["debug", "info", "warn", "error", "WARN", "Error", "dbg", "inf", "err", "wrn"]).to_string())
+    }
+    fn extremes(_: &mut Pool) -> Vec<Self> {
+        ["debug", "info", "warn", "error", "WARN", "Error", "DEBUG", "Information", "warning", "err"].iter().map(|s| LevelText(s.to_string())).collect()
+    }
+}
+#[derive(Clone, Debug)]
+struct TraceHex(String);
+impl Gen for TraceHex {
+    fn gen(p: &mut Pool) -> Self {
+        let t = emit::TraceId::gen(p).to_string();
+        TraceHex(if p.rng.below(2) == 0 { t.to_uppercase() } else { t })
+    }
+}
+#[derive(Clone, Debug)]
+struct SpanHex(String);
+impl Gen for SpanHex {
+    fn gen(p: &mut Pool) -> Self {
+        let t = emit::SpanId::gen(p).to_string();
+        SpanHex(if p.rng.below(2) == 0 { t.to_uppercase() } else { t })
+    }
+}
+
 // ---------------------------------------------------------------- the call sites
 
 struct Site {
@@ -514,6 +571,10 @@ macro_rules! site {
     // the plain form: emit::props! { attrs key: expr }
     ($reg:ident, $mode:literal, $class:literal, $ty:ty, [$($attr:tt)*], $key:ident, |$o:ident| $e:expr, |$x:ident, $exp:ident| $fill:block, $pull:expr) => {
         site!(@core $reg, $mode, $class, "props", $ty, stringify!($key), |$o| { let props = emit::props! { $($attr)* $key: $e }; } => &props, |$x, $exp| $fill, $pull);
+    };
+    // the captured expression is a local variable holding `expr` (an Option / a reference)
+    (@bound $reg:ident, $mode:literal, $class:literal, $ty:ty, [$($attr:tt)*], $key:ident, |$o:ident| $e:expr, |$x:ident, $exp:ident| $fill:block, $pull:expr) => {
+        site!(@core $reg, $mode, $class, "props", $ty, stringify!($key), |$o| { let bound = $e; let props = emit::props! { $($attr)* $key: bound }; } => &props, |$x, $exp| $fill, $pull);
     };
     (@core $reg:ident, $mode:literal, $class:literal, $wrap:literal, $ty:ty, $keystr:expr, |$o:ident| { $($build:tt)* } => $props:expr, |$x:ident, $exp:ident| $fill:block, $pull:expr) => {
         $reg.push(Site {
@@ -688,6 +749,45 @@ fn sites() -> Vec<Site> {
     wrapped!("string", String, |o| o, [default_pull, display, debug, value, sval, serde], |v: emit::Value| v.cast::<Cow<str>>().map(|x| format!("{:?}", &*x)), |x| format!("{:?}", &x[..]));
     wrapped!("struct", Rec, |o| o, [default_display, display, debug, sval, serde], no_pull, |x| format!("{x:?}"));
     wrapped!("error", ChainErr, |o| o, [default_display, display, debug, error], no_pull, |x| format!("{x:?}"));
+
+    // capture input forms: trait objects, references to references, a str as an error
+    site!(reg, "as_display_inspect", "dyn_display", DisplayOnly, [#[emit::as_display(inspect: true)]], k, |o| (o as &dyn std::fmt::Display), |x, exp| { exp.display = Some(format!("{}", x)); }, no_pull);
+    site!(reg, "as_debug_inspect", "dyn_debug", DebugOnly, [#[emit::as_debug(inspect: true)]], k, |o| (o as &dyn std::fmt::Debug), |x, exp| { exp.debug = Some(format!("{:?}", x)); }, no_pull);
+    macro_rules! ref_ref_sites {
+        ($ty:ty, $pull:expr, |$px:ident| $pexp:expr) => {
+            site!(reg, "as_value", "ref_ref", $ty, [#[emit::as_value]], k, |o| &o, |x, exp| { let $px = x; exp.pull = Some($pexp); }, $pull);
+            site!(reg, "as_display", "ref_ref", $ty, [#[emit::as_display]], k, |o| &o, |x, exp| { exp.display = Some(format!("{}", x)); }, no_pull);
+            site!(reg, "as_debug", "ref_ref", $ty, [#[emit::as_debug]], k, |o| &o, |x, exp| { exp.debug = Some(format!("{:?}", x)); }, no_pull);
+            site!(reg, "as_sval", "ref_ref", $ty, [#[emit::as_sval]], k, |o| &o, |x, exp| { exp.serde = serde_json::to_string(x).ok(); exp.sval = sval_json::stream_to_string(x).ok(); }, no_pull);
+            site!(reg, "as_serde", "ref_ref", $ty, [#[emit::as_serde]], k, |o| &o, |x, exp| { exp.serde = serde_json::to_string(x).ok(); exp.sval = sval_json::stream_to_string(x).ok(); }, no_pull);
+        };
+    }
+    ref_ref_sites!(i64, |v: emit::Value| v.cast::<i64>().map(|x| format!("{x:?}")), |x| format!("{x:?}"));
+    ref_ref_sites!(String, |v: emit::Value| v.cast::<Cow<str>>().map(|x| format!("{:?}", &*x)), |x| format!("{:?}", &x[..]));
+    site!(reg, "as_error", "err_str", String, [#[emit::as_error]], k, |o| &o[..], |x, exp| { exp.pull = Some(format!("{:?}", &x[..])); }, |v: emit::Value| v.cast::<Cow<str>>().map(|x| format!("{:?}", &*x)));
+    site!(reg, "err_key", "err_str", String, [], err, |o| &o[..], |x, exp| { exp.pull = Some(format!("{:?}", &x[..])); }, |v: emit::Value| v.cast::<Cow<str>>().map(|x| format!("{:?}", &*x)));
+    // a Cow<str> is a string too
+    site!(reg, "as_value", "string", Cow<'static, str>, [#[emit::as_value]], k, |o| o, |x, exp| { exp.pull = Some(format!("{:?}", &x[..])); }, |v: emit::Value| v.cast::<Cow<str>>().map(|x| format!("{:?}", &*x)));
+
+    // level and ids under their well-known keys, in every form the capture accepts
+    macro_rules! wk_sites {
+        ($mode:literal, $key:ident, $ty:ty, $cast:ty, $textty:ty, |$t:ident| $parse:expr) => {
+            site!(reg, $mode, "wk_value", $ty, [], $key, |o| *o, |x, exp| { exp.pull = Some(format!("{:?}", x)); }, |v: emit::Value| v.cast::<$cast>().map(|x| format!("{x:?}")));
+            site!(@bound reg, $mode, "wk_value", $ty, [], $key, |o| &o, |x, exp| { exp.pull = Some(format!("{:?}", x)); }, |v: emit::Value| v.cast::<$cast>().map(|x| format!("{x:?}")));
+            site!(@bound reg, $mode, "wk_value", $ty, [], $key, |o| Some(*o), |x, exp| { exp.pull = Some(format!("{:?}", x)); }, |v: emit::Value| v.cast::<$cast>().map(|x| format!("{x:?}")));
+            site!(@bound reg, $mode, "wk_value", $ty, [], $key, |o| Some(o), |x, exp| { exp.pull = Some(format!("{:?}", x)); }, |v: emit::Value| v.cast::<$cast>().map(|x| format!("{x:?}")));
+            site!(reg, $mode, "wk_text", $textty, [], $key, |o| &o.0[..], |x, exp| { let $t = &x.0; exp.pull = ($parse).map(|l: $cast| format!("{l:?}")); }, |v: emit::Value| v.cast::<$cast>().map(|x| format!("{x:?}")));
+            site!(@bound reg, $mode, "wk_text", $textty, [], $key, |o| Some(&o.0[..]), |x, exp| { let $t = &x.0; exp.pull = ($parse).map(|l: $cast| format!("{l:?}")); }, |v: emit::Value| v.cast::<$cast>().map(|x| format!("{x:?}")));
+            site!(@bound reg, $mode, "wk_none", $ty, [], $key, |_o| None::<$ty>, |_x, _exp| {}, no_pull);
+        };
+    }
+    wk_sites!("lvl_key", lvl, emit::Level, emit::Level, LevelText, |t| t.parse::<emit::Level>().ok());
+    wk_sites!("trace_id_key", trace_id, emit::TraceId, emit::TraceId, TraceHex, |t| t.parse::<emit::TraceId>().ok());
+    wk_sites!("span_id_key", span_id, emit::SpanId, emit::SpanId, SpanHex, |t| t.parse::<emit::SpanId>().ok());
+    wk_sites!("span_parent_key", span_parent, emit::SpanId, emit::SpanId, SpanHex, |t| t.parse::<emit::SpanId>().ok());
+    // ids given as the integers they are
+    site!(reg, "trace_id_key", "wk_value", u128, [], trace_id, |o| *o, |x, exp| { exp.pull = Some(format!("{:?}", emit::TraceId::from_u128(*x))); }, |v: emit::Value| Some(format!("{:?}", v.cast::<emit::TraceId>())));
+    site!(reg, "span_id_key", "wk_value", u64, [], span_id, |o| *o, |x, exp| { exp.pull = Some(format!("{:?}", emit::SpanId::from_u64(*x))); }, |v: emit::Value| Some(format!("{:?}", v.cast::<emit::SpanId>())));
 
     // f32: pulls back as the f64 it denotes; char: displays
     site!(reg, "default", "float32", f32, [], k, |o| *o, |x, exp| { exp.display = Some(format!("{}", x)); exp.pull = Some(format!("{:?}", *x as f64)); }, |v: emit::Value| v.cast::<f64>().map(|x| format!("{x:?}")));
